@@ -50,7 +50,10 @@ var denomNames = []string{env.BondDenom, "uusdc"}
 var userFunds = [][]int64{{3 * unit, unit}, {unit / 2, 2 * unit}, {2 * unit, 0}, {unit, 0}}
 var freshIDs = []int{11, 12}
 var tracked = []int{11, 12, 3} // client addresses observed
-var chainNames = map[int]string{1: "eth-main", 2: "bnb-main"}
+// three active chains (store keys sort bnb-main < eth-main < matic-main)
+var chainNames = map[int]string{1: "eth-main", 2: "bnb-main", 3: "matic-main"}
+
+const nChains = 3
 var contracts = map[int]string{1: "0x1111111111111111111111111111111111111111", 2: "0x2222222222222222222222222222222222222222"}
 
 type args struct {
@@ -64,6 +67,7 @@ type args struct {
 	Q   int    `json:"q"`
 	Via string `json:"via"`
 	D   int    `json:"d"`
+	Sc  []int  `json:"sc"` // SetSale: the complete list, contract id per chain 1..nChains (0 = chain not listed)
 }
 
 type world struct {
@@ -85,7 +89,7 @@ func newWorld() *world {
 		users = append(users, cs)
 	}
 	e := env.NewE2(env.E2Options{Seed: drv.Seed(), Powers: []int64{10, 10, 10}, Users: users})
-	ew, err := e.AddEvmChains(env.EvmChainSpec{RefID: chainNames[1]}, env.EvmChainSpec{RefID: chainNames[2]})
+	ew, err := e.AddEvmChains(env.EvmChainSpec{RefID: chainNames[1]}, env.EvmChainSpec{RefID: chainNames[2]}, env.EvmChainSpec{RefID: chainNames[3]})
 	if err != nil {
 		panic(err)
 	}
@@ -230,6 +234,8 @@ func (w *world) observe() map[string]any {
 					g = 1
 				}
 				r["num"], r["den"] = int(x/g), int(y/g)
+			} else if now.Unix() > acc.StartTime {
+				r["num"], r["den"] = 1, 1 // a window of length 0 (0 vesting months) is over after its instant
 			}
 			if !acc.DelegatedFree.IsZero() || !acc.DelegatedVesting.IsZero() {
 				r["acct"] = 3
@@ -273,7 +279,7 @@ func (w *world) observe() map[string]any {
 	if f, err := a.PalomaKeeper.LightNodeClientFeegranter(ctx); err == nil && f != nil {
 		obs["feegr"] = w.userIdx(f.Account)
 	}
-	sc := []int{0, 0}
+	sc := make([]int, nChains)
 	nsc := 0
 	if all, err := a.SkywayKeeper.AllLightNodeSaleContracts(ctx); err == nil {
 		nsc = len(all)
@@ -292,7 +298,7 @@ func (w *world) observe() map[string]any {
 	}
 	obs["sc"], obs["nsc"] = sc, nsc
 	var nonces []int
-	for ch := 1; ch <= 2; ch++ {
+	for ch := 1; ch <= nChains; ch++ {
 		n, err := a.SkywayKeeper.GetLastObservedSkywayNonce(ctx, chainNames[ch])
 		if err != nil {
 			panic(err)
@@ -401,9 +407,15 @@ func (w *world) do(act string, a args) outcome {
 			return palomamodule.NewPalomaProposalHandler(app.PalomaKeeper)(ctx, govv1beta1.Content(&palomatypes.SetLightNodeClientFeegranterProposal{Title: "t", Description: "d", FeegranterAccount: e.User(fgIdx).Bech32()}))
 		})
 	case "SetSale":
+		// the proposal carries the COMPLETE new list
 		var cs []*skywaytypes.LightNodeSaleContract
-		if a.K != 0 {
-			cs = append(cs, &skywaytypes.LightNodeSaleContract{ChainReferenceId: chainNames[a.Ch], ContractAddress: contracts[a.K]})
+		if len(a.Sc) != nChains {
+			panic(fmt.Sprintf("SetSale: list %v", a.Sc))
+		}
+		for i, k := range a.Sc {
+			if k != 0 {
+				cs = append(cs, &skywaytypes.LightNodeSaleContract{ChainReferenceId: chainNames[i+1], ContractAddress: contracts[k]})
+			}
 		}
 		return w.setup(func(ctx sdk.Context) error {
 			return skywaykeeper.NewSkywayProposalHandler(app.SkywayKeeper)(ctx, govv1beta1.Content(&skywaytypes.SetLightNodeSaleContractsProposal{Title: "t", Description: "d", LightNodeSaleContracts: cs}))
@@ -466,6 +478,9 @@ func runHistory(t *testing.T, em *drv.Emitter, h drv.History) {
 		var a args
 		if err := json.Unmarshal(st.Args, &a); err != nil {
 			t.Fatal(err)
+		}
+		if a.Sc == nil {
+			a.Sc = []int{}
 		}
 		ev := map[string]any{"h": h.H, "i": i + 1, "act": st.Act, "args": a, "res": "fail", "cs": "", "code": 0, "log": ""}
 		o := w.do(st.Act, a)
